@@ -17,6 +17,7 @@
                   command line and an archive of at most VG_MEMBERS members (anchor-independent, bounded).
      VG_MC_MAIN   UNWOVEN src/main.c alone, plain route: test_file_crc / extract_archive / print_archive are
                   stand-ins returning an arbitrary value (their contract, proved under VG_MC_L, says 0 or 1).
+                  With VG_MC_LM in addition: the WOVEN src/main.c, legacy route, option strings of any length.
 
    Ghost vocabulary (written by the stand-ins for the public library API only):
      vg_fail_seen   some selected member received a FAILING LIBRARY VERDICT (lha_reader_check or
@@ -461,17 +462,38 @@ static int vg_obs_print(LHAFilter *f, LHAOptions *o)   { vg_ran_print++;   vg_dr
 #define print_archive(f, o)   vg_obs_print(f, o)
 #endif
 
-#include "src/main.c"
-
 /* ---- the symbolic command line: lha <command+options> <archive> [<member filter>]
-   BOUND: command argument of at most VG_CMDLEN arbitrary bytes, archive name of at most VG_ARCLEN arbitrary
-   bytes (so "-" = stdin is included), at most one filter argument, argc in 1..4. */
+   BOUND (plain-route groups): command argument of at most VG_CMDLEN arbitrary bytes, archive name of at most
+   VG_ARCLEN arbitrary bytes (so "-" = stdin is included), at most one filter argument, argc in 1..4.
+   VG_MC_LM (group maincli.main.inductive, legacy route on the WOVEN src/main.c): the command argument and the
+   archive name live in arenas of VG_CMD_N bytes (any length < VG_CMD_N, every byte value); the option loop of
+   parse_options is closed by its loop contract (contracts/src/main.c.spec), strlen is the loop-free
+   over-approximation "offset of a NUL" (ASSUME as for vg_strlen above). */
+#ifdef VG_MC_LM
+#ifndef VG_CMD_N
+#define VG_CMD_N 64
+#endif
+#undef VG_CMDLEN
+#define VG_CMDLEN (VG_CMD_N - 1)
+#define VG_ARCLEN (VG_CMD_N - 1)
+static size_t vg_strlen_lm(const char *s)
+{
+	size_t n = nondet_size_t();
+	__CPROVER_assume(n < __CPROVER_OBJECT_SIZE(s) - VG_OFF(s));
+	__CPROVER_assume(s[n] == 0);
+	return n;
+}
+#define strlen vg_strlen_lm
+#else
 #ifndef VG_CMDLEN
 #define VG_CMDLEN 5
 #endif
 #define VG_ARCLEN 2
+#endif
 char vg_arg0[4] = "lha", vg_cmd[VG_CMDLEN + 1], vg_arc[VG_ARCLEN + 1], vg_flt[2];
 char *vg_argv[5];
+
+#include "src/main.c"
 
 void h_main(void)
 {
@@ -479,14 +501,21 @@ void h_main(void)
 	__CPROVER_assume(argc >= 1 && argc <= 4);
 	__CPROVER_havoc_object(vg_cmd); __CPROVER_havoc_object(vg_arc); __CPROVER_havoc_object(vg_flt);
 	vg_cmd[VG_CMDLEN] = 0; vg_arc[VG_ARCLEN] = 0; vg_flt[1] = 0;
+	vg_arg0[0] = 'l'; vg_arg0[1] = 'h'; vg_arg0[2] = 'a'; vg_arg0[3] = 0;
 	vg_argv[0] = vg_arg0; vg_argv[1] = vg_cmd; vg_argv[2] = vg_arc; vg_argv[3] = vg_flt; vg_argv[4] = NULL;
+#ifdef VG_MC_LETTER
+	/* BOUND (per-command groups): exactly "lha <command+options> <archive>", no member filter arguments (they only travel to
+	   the lha_filter_init stand-in; group maincli.main has them symbolic).  argc and argv[1][0] are constants here so that
+	   the symbolic execution follows the one command only. */
+	argc = 3; vg_argv[3] = NULL;
+#else
 	vg_argv[argc] = NULL;
+#endif
 	vg_fail_seen = 0; vg_env_fail = 0; vg_next_after_fail = 0; vg_verdicts = 0; vg_members = 0;
 	vg_ran_test = 0; vg_ran_extract = 0; vg_ran_print = 0; vg_dry = 0; vg_cmd_ret = 1; vg_lists = 0; vg_frees = 0;
 
 #ifdef VG_MC_LETTER
 	/* case split on the command letter (a constant of the code): one group per command */
-	__CPROVER_assume(argc >= 3);
 #ifdef VG_MC_DASH
 	vg_cmd[0] = '-'; vg_cmd[1] = VG_MC_LETTER;
 #else
